@@ -6,7 +6,8 @@
    stddev(list)               core.rs stddev: two loops (sum, squared deviations) over the shared decimal128 layer Base/DecRound.v
                               (C08/Model.v nadd / nsub / ndiv / nsqrt, nsquare for decNumberPower(x, 2)).
    split / replace / matches  on LITERAL patterns (no metacharacters, no flags): the regular expression is a plain substring search,
-                              leftmost non-overlapping occurrences.  replace_lit is the specified value; the code additionally trims the
+                              leftmost non-overlapping occurrences; the empty pattern matches at every position (Regex::split /
+                              replace_all: split("abc", "") = ["", "a", "b", "c", ""], replace("abc", "", "-") = "-a-b-c-").  replace_lit is the specified value; the code additionally trims the
                               result (known finding replace-trim), modelled by replace_lit_impl.
    No proofs here. *)
 From Coq Require Import List NArith ZArith Bool Arith.
@@ -92,7 +93,12 @@ Fixpoint split_fuel (fuel : nat) (d s : list N) : list (list N) :=
            | None => [s]
            end
   end.
-Definition split_lit (s d : list N) : list (list N) := split_fuel (S (length s)) d s.
+(* an empty delimiter matches at every position, also before the first and after the last character: "", each character, "" *)
+Definition split_lit (s d : list N) : list (list N) :=
+  match d with
+  | [] => [] :: map (fun c => [c]) s ++ [[]]
+  | _ :: _ => split_fuel (S (length s)) d s
+  end.
 
 (* Regex::replace_all with a replacement text without `$` *)
 Fixpoint replace_fuel (fuel : nat) (p r s : list N) : list N :=
@@ -103,7 +109,14 @@ Fixpoint replace_fuel (fuel : nat) (p r s : list N) : list N :=
            | None => s
            end
   end.
-Definition replace_lit (s p r : list N) : list N := replace_fuel (S (length s)) p r s.
+Fixpoint join (d : list N) (ps : list (list N)) : list N :=
+  match ps with [] => [] | [p] => p | p :: r => p ++ d ++ join d r end.
+(* an empty pattern: the replacement is inserted at every position *)
+Definition replace_lit (s p r : list N) : list N :=
+  match p with
+  | [] => join r (split_lit s [])
+  | _ :: _ => replace_fuel (S (length s)) p r s
+  end.
 
 (* str::trim removes White_Space code points at both ends; the ones below U+0100 and the common BMP ones *)
 Definition is_space (c : N) : bool :=
@@ -111,9 +124,6 @@ Definition is_space (c : N) : bool :=
    || (c =? 8232) || (c =? 8233) || (c =? 8239) || (c =? 8287) || (c =? 12288))%N.
 Fixpoint trim_start (s : list N) : list N := match s with c :: r => if is_space c then trim_start r else s | [] => [] end.
 Definition trim (s : list N) : list N := rev (trim_start (rev (trim_start s))).
-
-Fixpoint join (d : list N) (ps : list (list N)) : list N :=
-  match ps with [] => [] | [p] => p | p :: r => p ++ d ++ join d r end.
 
 Definition b_split (s d : value) : value := str2 (fun s d => VList (map VStr (split_lit s d))) s d.
 Definition b_replace (s p r : value) : value :=
